@@ -39,7 +39,7 @@ func TestVerif_C12_Storage(t *testing.T) {
 		// every second world also tries to mount inside the path of a sealed namespace
 		// (mixed so that every shard of 8 sees every combination)
 		c12StorageCase(t, r, rng, caseID, (ti/2+ti/8)%2 == 0, ti%5 == 4, (ti+ti/8)%2 == 1, reqs)
-		if r.NViolations() > 30 {
+		if c12Generic(r) > 30 {
 			break
 		}
 	}
@@ -99,7 +99,7 @@ func c12StorageCase(t *testing.T, r *kit.Result, rng *kit.Rand, caseID string, t
 		}
 	}
 	for s.iter = 0; s.iter < reqs; s.iter++ {
-		if w.failed && r.NViolations() > 12 {
+		if w.failed && c12Generic(r) > 12 {
 			break
 		}
 		if s.sealedNS == nil {
